@@ -42,6 +42,76 @@ PROPS = {
         note="Trusted: as C11 plus assume_specification for usize::checked_next_power_of_two; cfg_valid (header align>=16, size>=32, multiple of align; overhead layout (16,8)) is what repr(C,align(16)) ChunkHeader<A> yields - checked per instantiation by Kani under C10. The end-to-end Kani chain harness is bounded (bound in evidence) and is not what the claim rests on.",
         not_covered=["pointer glue of NonDummyChunk::new/append_for (header placement) is checked by Kani harnesses under C10/C05, per instantiation"],
     ),
+    "C01": dict(
+        level="other",
+        technique="contracts (pre/post/frame) on RawChunk/RawBump/allocator_impl functions checked by Kani from an arbitrary well-formed arena state; kernel arithmetic proved by Verus; history induction written in DESIGN.md",
+        claim="Integer kernel: proved for all inputs (Verus, C11 contracts). Pointer level: every function that hands out or moves a block (RawChunk::alloc/prepare_*, RawBump::alloc incl. slow path, allocator_impl::grow/shrink/deallocate, scope exits, alloc_try_with) satisfies its step contract -- result aligned, >= requested, inside owned memory, inside what was free (or the old block), allocated set otherwise only grows -- from ANY well-formed state with any live sub-block. These are bounded obligations (literal chunk sizes, <=3 chunks, small layouts), never counted as proved. 'For every history' follows by the induction of DESIGN.md 2.5, which is a written argument.",
+        note="Bounded: chunk sizes 48/112/240 bytes (literal), K<=3, layout sizes <= 600 bytes; settings/allocator instantiation lists in evidence. LogAlloc models a conforming base allocator. CBMC memory model. The history induction is not machine-checked.",
+        not_covered=["the induction over operation sequences (DESIGN.md 2.5) is a written argument", "collections' buffers and prepared allocations are covered under C15/C08, typed entry points under C17", "clauses about exits by unwinding / panics injected in callbacks (neither verifier has unwinding semantics)"],
+    ),
+    "C02": dict(
+        level="other",
+        technique="byte-frame postconditions with universally quantified (nondeterministic) witness bytes on the real grow/grow_zeroed/shrink/deallocate/alloc/allocate_zeroed/reset_to/WithoutShrink/WithoutDealloc, checked by Kani",
+        claim="For every operation that could write memory the contract states: no content byte outside the new block changes (witness byte ranges over every byte of every grant), the first min(old,new) bytes are preserved (witness index), zeroed allocations / the tail of grow_zeroed read 0 although memory was nondeterministic before. Old and new alignments are independent symbolic values; the live block is any sub-block of the allocated region. Bounded (one chunk of 48 bytes quick, 48+112 thorough; block sizes <= 12..32).",
+        note="Bounded as stated; a symbolic chunk size together with a symbolic-length copy exhausts CBMC (measured), so chunk sizes are literals. One defect found by these obligations and fixed (known_findings.txt).",
+        not_covered=["claim/reserve/chunk growth frames are covered through the alloc slow-path and claim obligations only for K<=3", "clauses about exits by unwinding / panics injected in callbacks (neither verifier has unwinding semantics)"],
+    ),
+    "C03": dict(
+        level="other",
+        technique="contracts on Checkpoint::new, RawBump::reset_to/reset/reset_to_start, BumpScopeGuard, scoped/scoped_aligned closures, alloc_try_with(_mut), checked by Kani from arbitrary earlier AND arbitrary later states",
+        claim="reset_to from ANY later state of the arena (current chunk at or after the checkpoint chunk, all later positions arbitrary) restores current chunk, position and allocated byte count exactly, touches no other header field, writes no content byte and never calls the base allocator; guard reset/drop and closure return do the same after a nondeterministic workload; the unallocated checkpoint rewinds to the start of the first chunk; alloc_try_with Err restores exactly. reset keeps exactly the last chunk. Bounded (K<=3, literal chunk sizes).",
+        note="'Repeating the workload needs no new memory' and 'a reset() loop converges' are derived arguments (DESIGN.md 2.5), not machine-checked. Bounded as stated.",
+        not_covered=["scope exit by unwinding", "the two derived sentences (replay needs no new chunk; reset loop converges) are written arguments over the contracts + C12 grow_doubles"],
+    ),
+    "C05": dict(
+        level="other",
+        technique="a logging base-allocator model asserts exactly-once release with fitting layout inside its deallocate; contracts on NonDummyChunk::new/deallocate/layout, reset, reset_to_start, manually_drop, scope exits; Verus lemma for the size arithmetic",
+        claim="Verus (all inputs): the chunk size used for release lies between the requested and the granted size and keeps the alignment (align_size / fresh_chunk_fits). Kani (bounded K<=3): every grant is released exactly once with the same alignment and a size in [requested, granted] by reset (all but the last) and manually_drop from any current chunk; reset_to_start, reset_to, scope exits release nothing; an unallocated arena never calls the base allocator and a refused first chunk leaves nothing to release. CBMC's bounds checks cover 'never touches bytes outside the granted blocks' in every harness.",
+        note="LogAlloc is an assumed model of a conforming allocator (exact grants; over-granting is covered arithmetically by Verus and the bounded chain harness). BumpPool return path is not covered (C19).",
+        not_covered=["panics injected in user callbacks", "into_raw/from_raw round trip", "BumpPool return path"],
+    ),
+    "C07": dict(
+        level="other",
+        technique="error-path postconditions with a nondeterministically failing / refusing base allocator on the real alloc slow path, grow/shrink, alloc_try_with, unallocated first chunk; overflow arithmetic proved by Verus; Kani's built-in panic freedom",
+        claim="Size computations: None exactly on mathematical overflow, never wrap (Verus, all inputs). Allocation paths instantiated with E=AllocError: a refused chunk yields Err (a reachable panic would be a failed CBMC check), no chunk is leaked, the invariant holds, every previously allocated byte stays allocated and unchanged, the arena keeps working (bounded K<=3).",
+        note="Collections' try_* methods are covered under C08/C06 where built; 'a panicking method never returns' rests on Infallible being uninhabited (type system) and is not separately checked here.",
+        not_covered=["try_ methods of the growable collections beyond what C08 covers", "panicking twins (E=Infallible) not instantiated"],
+    ),
+    "C10": dict(
+        level="other",
+        technique="representation invariant wf (defined from the base allocator's grants, independently of the accessors) as postcondition of every mutating obligation; accessor/sum identities and typed-vs-type-erased equalities checked by Kani; size arithmetic lemmas by Verus",
+        claim="wf (position in content range and MIN_ALIGN-aligned for the current chunk, size multiple of 16, header inside the grant, doubly linked list consistent, each later chunk strictly larger) is asserted after every operation contract of C01/C03/C05/C13/C14/C18; Stats/Chunk accessors equal the grant-derived geometry and sums, forward/backward iteration are reverses, AnyStats/AnyChunk equal the typed values for ZST, 8-byte and align-32 base allocators; claimed/unallocated report zeros. Verus proves the size facts for all inputs. One defect found by these obligations and fixed.",
+        note="Bounded: K<=3, literal chunk sizes; allocator instantiations listed in evidence.",
+        not_covered=["clauses about exits by unwinding / panics injected in callbacks (neither verifier has unwinding semantics)"],
+    ),
+    "C13": dict(
+        level="other",
+        technique="Verus lemmas realloc_same_address_{up,down} over the C11 contracts; Kani contracts on deallocate/is_last/grow/shrink and the WithoutDealloc/WithoutShrink wrappers for any live sub-block",
+        claim="Proved (Verus): after bumping a layout whose size is a multiple of MIN_ALIGN the block ends at the position, and resetting the position as deallocate does makes the same request return the same address. Kani (bounded): deallocate of the newest block sets exactly that position, of any other block changes no header field; grow of the newest block upwards with room returns the same address; shrink of a non-newest block reclaims nothing; DEALLOCATES=false / SHRINKS=false / WithoutShrink never decrease the allocated byte count; data intact (C02 clauses).",
+        note="Bounded as in C02/C01. Nesting of wrappers is covered only one level deep.",
+        not_covered=["wrappers nested more than one level / through references (see C17)"],
+    ),
+    "C14": dict(
+        level="other",
+        technique="Verus lemma dummy_range_fails (every layout fails on the -16 range) + Kani contracts on claim/reclaim/BumpClaimGuard and every RawBump entry on the claimed handle",
+        claim="Proved: on the dummy range all four bump functions return None for every layout. Kani (loop-free in the claim part, K<=2): claim swaps in the claimed dummy and hands the old chunk to the guard touching no header; alloc/alloc_sized/alloc_slice/prepare_*/reserve/make_allocated/allocate fail; deallocate/shrink of any block of any real chunk change nothing; stats are all zero; a second claim panics; reclaim/guard drop make the original continue exactly at the guard's chunk and position; a scope opened through the guard is fully undone.",
+        note="Only with a zero-sized base allocator: for a sized one `&ChunkHeader<A>` is formed on the 32-byte static dummy header (CBMC flags the reference; see DESIGN.md observations).",
+        not_covered=["guard drop by unwinding", "nested claims", "growable collections created before the claim"],
+    ),
+    "C15": dict(
+        level="other",
+        technique="frame contracts (no header field changes) on RawChunk::prepare_allocation(_range) and Verus/Kani contracts on bump_prepare_*; commit position contract of alloc_try_with_mut",
+        claim="prepare_allocation and prepare_allocation_range change no header field and return the largest aligned sub-range of the free part of the current chunk (kernel proved by Verus for all inputs; glue bounded). alloc_try_with_mut commits exactly the value (position at its end/start aligned to MIN_ALIGN).",
+        note="The MutBumpVec/MutBumpVecRev/MutBumpString fill loops, allocate_prepared_slice(_rev) and the *_mut iterator helpers are NOT yet under contract.",
+        not_covered=["MutBumpVec/MutBumpVecRev/MutBumpString filling and finalisation", "alloc_iter_mut(_rev), alloc_fmt_mut, alloc_cstr_fmt_mut", "clauses about exits by unwinding / panics injected in callbacks (neither verifier has unwinding semantics)"],
+    ),
+    "C18": dict(
+        level="other",
+        technique="Verus contract on align_pos + lemma align_pos_in_range; Kani contracts on RawBump::align_to, BumpAlignGuard, aligned::<N>, scoped_aligned::<N>",
+        claim="Proved: align_pos yields the least/greatest multiple in bump direction, moves by < N, stays inside a range whose far end is 16-aligned, is idempotent and implies the weaker alignments. Kani (bounded K<=2): align_to moves only the current position accordingly; inside aligned/scoped_aligned the position is a multiple of N at entry and after each allocation; after aligned it is a multiple of the outer MIN_ALIGN; after scoped_aligned exactly the entry position; earlier data intact.",
+        note="(outer,inner) pairs instantiated: see evidence; with_settings/borrow_mut_with_settings panics are not instantiated.",
+        not_covered=["with_settings / borrow_mut_with_settings conversions and their panics", "unwinding out of a region", "all 25 (outer,inner) pairs (5 instantiated)"],
+    ),
 }
 
 
